@@ -183,9 +183,16 @@ def compare(inc, fresh, reverted_env=frozenset()) -> list[tuple[str, str, dict]]
                 found.append(("reverted-optional-step-keeps-amended-relations",
                               "an optional PENDING step keeps amended relations of an earlier run", extra))
             else:
-                sig = "graph-differs:" + ",".join(k for k in (buildkit.diff_kinds(a3, b3) or kinds))[:120]
-                found.append((sig, "the active workflow differs from a build from scratch: " + "; ".join(lines[:4])[:400],
-                              extra))
+                lost = _lost_products_of_hashless_creators(inc.graph_canon, fresh.graph_canon, a2, b2)
+                if lost:
+                    found.append(("creator-that-lost-a-product-not-rerun",
+                                  f"{lost['steps']} lost the product(s) {lost['files'][:4]} while detached (cleaned up, "
+                                  f"hash dropped), were re-attached in the subtree of a recycled creator, are SUCCEEDED "
+                                  f"without a hash and were never run again: the declarations are missing", {**extra, **lost}))
+                else:
+                    sig = "graph-differs:" + ",".join(k for k in (buildkit.diff_kinds(a3, b3) or kinds))[:120]
+                    found.append((sig, "the active workflow differs from a build from scratch: "
+                                  + "; ".join(lines[:4])[:400], extra))
     if stale:
         detail = {"paths": stale,
                   "incremental": {p: _text(inc.files.get(p)) for p in stale[:2]},
@@ -214,6 +221,43 @@ def compare(inc, fresh, reverted_env=frozenset()) -> list[tuple[str, str, dict]]
             else:
                 found.append(("out-of-scope:pending-step-keeps-hash", key, {}))
     return found
+
+
+def _lost_products_of_hashless_creators(inc_canon, fresh_canon, view_inc, view_fresh):
+    """When every difference between the two views is a file (with the lines that mention it)
+    that exists only from scratch and whose creator is, in the incremental graph, an attached
+    SUCCEEDED step without stored hash: the steps and files concerned, else None."""
+    gi, gf = buildkit.parse_graph(inc_canon), buildkit.parse_graph(fresh_canon)
+    files, steps = [], set()
+    for key, block in gf.items():
+        if block.detached or not key.startswith("file:"):
+            continue
+        other = gi.get(key)
+        if other is not None and not other.detached:
+            continue
+        creators = [buildkit.strip_ref(c) for c in block.rel("creator")]
+        if not creators or not creators[0].startswith("step:"):
+            return None
+        mine = gi.get(creators[0])
+        if mine is None or mine.detached or mine.get("state") != ["SUCCEEDED"] or mine.get("inp_digest"):
+            return None
+        files.append(key[5:])
+        steps.add(creators[0])
+    if not files:
+        return None
+
+    def strip(view):
+        keep = []
+        for blk in view.split("\n\n"):
+            lines = [ln for ln in blk.split("\n") if ln.strip()]
+            if not lines or lines[0][5:] in files and lines[0].startswith("file:"):
+                continue
+            keep.append("\n".join(ln for ln in lines if not any(ln.rstrip().endswith("file:" + f) for f in files)))
+        return "\n\n".join(keep)
+
+    if strip(view_inc) != strip(view_fresh):
+        return None
+    return {"files": sorted(files), "steps": sorted(steps)}
 
 
 def _text(b):
